@@ -112,8 +112,22 @@ pub fn c12_case(text: &[u8], out: &mut Vec<Violation>) -> u64 {
 
 	// every interleaving of next / next_back, two steps beyond exhaustion (fusedness)
 	let steps = k + 2;
-	if steps <= 12 {
-		for mask in 0u32..(1u32 << steps) {
+	// all 2^(k+2) schedules for short paths; for long ones a family of regular schedules
+	// (all front, all back, alternating from either end, blocks of 3, front-half/back-half)
+	let masks: Vec<u64> = if steps <= 12 {
+		(0u64..(1u64 << steps)).collect()
+	} else if steps <= 62 {
+		let all = (1u64 << steps) - 1;
+		let alt = 0xAAAA_AAAA_AAAA_AAAAu64 & all;
+		let b3 = 0x71C7_1C71_C71C_71C7u64 & all;
+		let half = ((1u64 << (steps / 2)) - 1) & all;
+		vec![0, all, alt, !alt & all, b3, !b3 & all, half, !half & all]
+	} else {
+		vec![]
+	};
+	{
+		for mask in masks {
+			let mask = mask as u128;
 			evals += 1;
 			let r = guard(|| {
 				let mut it = p.segments();
